@@ -200,9 +200,13 @@ def sample(recs, n, seed):
         by.setdefault(klass(r), []).append(r)
     out = []
     keys = sorted(by)
+    if len(keys) > n:
+        # more classes than the budget: plain seeded sample
+        idx = list(range(len(recs)))
+        rnd.shuffle(idx)
+        return [recs[i] for i in sorted(idx[:n])]
     for k in keys:
         out.append(rnd.choice(by[k]))
-    rest = [r for r in recs if r not in out] if len(out) < n and len(recs) < 20000 else None
     if len(out) < n:
         chosen = set(id(r) for r in out)
         pool = [r for r in recs if id(r) not in chosen]
